@@ -544,6 +544,26 @@ func (v *VMValue) AsBool() bool {
 
 type recursionInfo struct {
 	exists map[interface{}]bool
+	// limit > 0: stop rendering once more than limit bytes of leaf text were produced
+	// (the caller then reports the operation budget as exceeded instead of using the text)
+	limit int
+	size  int
+	over  bool
+}
+
+// spend accounts the text of one rendered element and reports whether rendering must stop.
+func (ri *recursionInfo) spend(child *VMValue, n int) bool {
+	if ri.limit <= 0 {
+		return false
+	}
+	if child != nil && (child.TypeId == VMTypeArray || child.TypeId == VMTypeDict) {
+		n = 2 // the elements of a nested container were accounted while it was rendered
+	}
+	ri.size += n + 2
+	if ri.size > ri.limit {
+		ri.over = true
+	}
+	return ri.over
 }
 
 func (v *VMValue) ToString() string {
@@ -576,6 +596,9 @@ func (v *VMValue) toStringRaw(ri *recursionInfo) string {
 		for index, i := range arr.List {
 			x := i.toReprRaw(ri)
 			s += x
+			if ri.spend(i, len(x)) {
+				break
+			}
 			if index != len(arr.List)-1 {
 				s += ", "
 			}
@@ -605,7 +628,7 @@ func (v *VMValue) toStringRaw(ri *recursionInfo) string {
 			//	txt = value.ToRepr()
 			// }
 			items = append(items, fmt.Sprintf("'%s': %s", key, txt))
-			return true
+			return !ri.spend(value, len(key)+len(txt))
 		})
 		return "{" + strings.Join(items, ", ") + "}"
 	case VMTypeFunction:
@@ -1593,6 +1616,46 @@ func (ctx *Context) chargeStringLength(n int) bool {
 		return false
 	}
 	return true
+}
+
+// stringifyLimited renders v like ToString (or ToRepr) for a script, but stops as soon as the
+// text cannot fit into what is left of the operation budget and reports the budget as exceeded:
+// toStr([s]*512) multiplies the length of s by 512 with a handful of instructions, and a second
+// round would otherwise build gigabytes before anything could be charged.
+func (ctx *Context) stringifyLimited(v *VMValue, repr bool) (string, bool) {
+	ri := &recursionInfo{exists: map[interface{}]bool{}}
+	if limit := ctx.Config.OpCountLimit; limit > 0 {
+		left := limit - ctx.NumOpCount
+		if left < 0 {
+			left = 0
+		}
+		if left > 1<<26 {
+			left = 1 << 26
+		}
+		ri.limit = 16 * (int(left) + 1)
+	}
+	var s string
+	if repr {
+		s = v.toReprRaw(ri)
+	} else {
+		s = v.toStringRaw(ri)
+	}
+	if ri.over {
+		ctx.NumOpCount = opCountAdd(ctx.NumOpCount, IntType(ri.size/16))
+		ctx.Error = errors.New("允许算力上限")
+		return "", false
+	}
+	return s, true
+}
+
+// stringifyCharged is stringifyLimited for text that becomes a script value of its own
+// (toStr, repr): the text is charged like a string built by + or by a template.
+func (ctx *Context) stringifyCharged(v *VMValue, repr bool) (string, bool) {
+	s, ok := ctx.stringifyLimited(v, repr)
+	if !ok || !ctx.chargeStringLength(len(s)) {
+		return "", false
+	}
+	return s, true
 }
 
 // opCountAdd adds to an operation count without wrapping around.
